@@ -86,7 +86,8 @@ class TlcResult:
         """Per-action counts from `-coverage 1` output: <Action line ..>: distinct:total."""
         res = {}
         for m in re.finditer(r"^<(\w+) line \d+, col \d+ to line \d+, col \d+ of module (\w+)>: (\d+):(\d+)", self.out, re.M):
-            res[m.group(1)] = res.get(m.group(1), 0) + int(m.group(4))
+            nm = m.group(1)[2:] if m.group(1).startswith("Do") and m.group(1)[2:3].isupper() else m.group(1)
+            res[nm] = res.get(nm, 0) + int(m.group(4))
         return res
 
 
@@ -115,7 +116,7 @@ def run_tlc(module: str, cfg: str | None = None, *, work: str, env: dict | None 
     finally:
         shutil.rmtree(meta, ignore_errors=True)
     r = TlcResult(p.stdout, p.returncode, time.time() - t0)
-    with open(os.path.join(work, "tlc_%s.log" % module), "w") as f:
+    with open(os.path.join(work, "tlc_%s_%s.log" % (module, os.path.basename(cfg or "").replace(".cfg", ""))), "w") as f:
         f.write(p.stdout)
     if check and not r.ok and not r.invariant_violated and not r.action_prop_violated:
         tail = "\n".join(p.stdout.splitlines()[-25:])
